@@ -5,7 +5,7 @@
 From Coq Require Import ZArith.
 From TL Require Import Lib.Base Lib.GenTypes Gen.MagicGen Model.MagicNum Model.Magic Model.MagicSpec Model.MagicRun Actual.MagicActual.
 
-Definition w_cfg : mconfig := mk_cfg (Some [(7, 0)%Z]) None None.
+Definition w_cfg : mconfig := mk_cfg (Some [(7, 0)%Z]) None None None [].
 Definition one_site (name : string) (k : skind) (s : site) : file := mk_file name [mk_scope k None [] [s]].
 
 (* flag = True  was reported as "Magic number True" (fixed: a2903c3) *)
